@@ -1,5 +1,477 @@
 /-
-  Props/C18.lean — property theorems for C18 (stub; to be filled in).
+  Props/C18.lean — C18: rejections name the offending field; collect-all mode reports all
+  invalid ones.
+
+  Model: Sem/Errors.lean (message shapes, the three regexes of errors.py as matchers, the control
+  flow of `standard_readable_error_for_typedpy_exception`, `Structure.__init__` for flat classes).
+  "Which fields are invalid" is `invalidFields`, defined from `validate` (Sem/Validate.lean, the
+  C01/C02 model) and from nothing in the message code.
+
+  The pinned code violates the full statement (`Statement`, refuted by `statement_false`):
+    * a newline in the message body defeats `(.*)$`  (value of `…; Got <v>` shapes, any problem
+      text, e.g. a `pattern` with a newline)                              → `*_loses_field` theorems
+    * a field / class name outside `[a-zA-Z0-9_.]` defeats the field group → `non_ascii_name_loses_field`
+    * some checks raise foreign exceptions without any path (`anon`)       → `anon_message_no_field`
+  What holds, and is proved for all classes, argument sets, texts and codecs, is the statement
+  restricted by explicit decidable side conditions (`statement_partial`), together with the
+  *exact* condition under which a message keeps its field (`render_parse_exact`).
 -/
+import TypedpyModel.Lemmas.Errors
 namespace Typedpy.C18
+open Typedpy Typedpy.Err
+
+/-! ### render → parse -/
+
+/-- sufficient side condition on the value / problem texts of a message, per shape -/
+def goodTexts : Shape → Text → Text → Bool
+  | .gotFirst, v, p => noSemi v && noNL p && !p.isEmpty
+  | .gotLast, v, p => noNL v && noNL p && !p.isEmpty && p.head? != some 'G'
+  | .plain, _, p => noNL p && !p.isEmpty && p.head? != some 'G' && p.head? != some ';'
+
+/-- EXACT condition: a message `<field>: <rest>` whose field text is in `[a-zA-Z0-9_.]+` keeps its
+    field iff regex 1 matches the rest or the rest is a single line (regexes 2/3). -/
+theorem render_parse_exact (f rest : Text) (hf : identOk f = true) :
+    (parseMsg (f ++ ':' :: ' ' :: rest)).field = some f ↔ recoverable rest = true := by
+  rw [parse_field f rest hf]
+  cases recoverable rest <;> simp
+
+theorem render_eq (m : Msg) :
+    m.render = m.fullPath ++ ':' :: ' ' :: body m.shape m.value m.problem := by
+  simp [Msg.render, Msg.fullPath, withClass_append]
+
+/-- every rendered message whose texts satisfy the side condition is parsed back to its full path
+    and a non-empty problem -/
+theorem render_parse (m : Msg) (hp : identOk m.fullPath = true)
+    (ht : goodTexts m.shape m.value m.problem = true) :
+    (parseMsg m.render).field = some m.fullPath ∧ (parseMsg m.render).problem ≠ [] := by
+  rw [render_eq, parseMsg_header _ _ hp]
+  obtain ⟨cls, path, shape, v, p⟩ := m
+  cases shape with
+  | gotFirst =>
+    simp only [goodTexts, Bool.and_eq_true, Bool.not_eq_true'] at ht
+    obtain ⟨⟨hv, hnl⟩, hne⟩ := ht
+    have hne' : p ≠ [] := by intro h; simp [h] at hne
+    rw [parseTail_space, m1tail_gotFirst v p hv hnl]
+    exact ⟨by first | rfl | trivial, transform_nonempty p hne'⟩
+  | gotLast =>
+    simp only [goodTexts, Bool.and_eq_true, Bool.not_eq_true', bne_iff_ne, ne_eq] at ht
+    obtain ⟨⟨⟨hv, hnl⟩, hne⟩, hG⟩ := ht
+    have hne' : p ≠ [] := by intro h; simp [h] at hne
+    have hhead : (body .gotLast v p).head? ≠ some 'G' := by
+      cases p with
+      | nil => exact absurd rfl hne'
+      | cons x xs => simpa [body] using hG
+    have hline : noNL (body .gotLast v p) = true := by
+      have h3 : noNL sSemiGot = true := by decide
+      simp only [body, noNL_append, hv, hnl, h3, Bool.and_self]
+    rw [parseTail_line _ hhead hline]
+    obtain ⟨a, b, hab, hlen⟩ := splitLast_append sSemiGot (by decide) p v
+    simp only [body, hab]
+    refine ⟨by first | rfl | trivial, transform_nonempty a ?_⟩
+    intro ha
+    cases p with
+    | nil => exact hne' rfl
+    | cons x xs => simp [ha] at hlen
+  | plain =>
+    simp only [goodTexts, Bool.and_eq_true, Bool.not_eq_true', bne_iff_ne, ne_eq] at ht
+    obtain ⟨⟨⟨hnl, hne⟩, hG⟩, hS⟩ := ht
+    have hne' : p ≠ [] := by intro h; simp [h] at hne
+    rw [parseTail_line (body .plain v p) (by simpa [body] using hG) (by simpa [body] using hnl)]
+    simp only [body]
+    cases hs : splitLast sSemiGot p with
+    | none => exact ⟨by first | rfl | trivial, transform_nonempty p hne'⟩
+    | some ab =>
+      refine ⟨by first | rfl | trivial, transform_nonempty ab.1 ?_⟩
+      intro ha
+      have := splitLast_eq sSemiGot p ab.1 ab.2 (by simp [hs])
+      rw [ha] at this
+      apply hS
+      rw [this]; rfl
+
+/-- shape 1 (`Got <v>; <problem>`) with a `;`-free value also returns exactly the value and the
+    (transformed) problem, whatever else the value contains (newlines included) -/
+theorem render_parse_gotFirst (f v p : Text) (hf : identOk f = true) (hv : noSemi v = true)
+    (hp : noNL p = true) :
+    parseMsg (f ++ ':' :: ' ' :: body .gotFirst v p) =
+      ⟨some f, some v, (transform p).1, (transform p).2⟩ := by
+  rw [parseMsg_header _ _ hf, parseTail_space, m1tail_gotFirst v p hv hp]
+
+/-- any shape keeps its field when neither text contains a newline (a `;` in the value only
+    demotes shape 1 to regex 3) -/
+theorem render_parse_field_noNL (m : Msg) (hp : identOk m.fullPath = true)
+    (hv : noNL m.value = true) (hq : noNL m.problem = true) :
+    (parseMsg m.render).field = some m.fullPath := by
+  rw [render_eq, render_parse_exact _ _ hp]
+  exact recoverable_of_noNL _ _ _ hv hq
+
+/-- a message without newline whose field text is not in `[a-zA-Z0-9_.]+` never keeps it … -/
+theorem field_chars_necessary (s : Text) (f : Text) (h : (parseMsg s).field = some f) :
+    identOk f = true := by
+  unfold parseMsg at h
+  split at h
+  · rename_i a as c rest h1 h2
+    split at h
+    · simp only [Option.some.injEq] at h
+      rw [← h, ← h1]
+      have : ∀ t : Text, (spanField t).1.all isFieldChar = true := by
+        intro t
+        induction t with
+        | nil => rfl
+        | cons x xs ih =>
+          simp only [spanField]
+          split
+          · rename_i hx; simp [hx, ih]
+          · rfl
+      rw [identOk_iff]
+      exact ⟨by rw [h1]; simp, this s⟩
+    · simp at h
+  · simp at h
+
+/-! ### kernel-checked counterexamples (each is replayed on the real code as a known finding) -/
+
+def msgIntNewline : Msg :=
+  ⟨some "Foo".toList, "i".toList, .gotLast, "'a\nb'".toList, "Expected <class 'int'>".toList⟩
+
+/-- finding `field-lost:newline`: `Integer` given `'a\nb'` — `Foo.i: Expected <class 'int'>; Got 'a\nb'`
+    matches none of the three regexes; the field is lost -/
+theorem newline_value_loses_field : (parseMsg msgIntNewline.render).field = none := by decide
+
+/-- shape 1 survives a newline in the value (`[^;]*` matches it) … -/
+theorem newline_value_gotFirst_keeps_field :
+    (parseMsg (Msg.render ⟨some "Foo".toList, "s".toList, .gotFirst, "'a\nb'".toList,
+      "Expected a maximum length of 2".toList⟩)).field = some "Foo.s".toList := by decide
+
+/-- … but not a newline in the problem text (`String(pattern='^a\nb')`) -/
+theorem newline_problem_loses_field :
+    (parseMsg (Msg.render ⟨some "Foo".toList, "s".toList, .gotFirst, "'x'".toList,
+      "Does not match regular expression: '^a\nb'".toList⟩)).field = none := by decide
+
+/-- a `;` in a shape-1 value sends the message to regex 3: field kept, value lost, the problem is
+    the whole rest -/
+theorem semicolon_value_demoted :
+    parseMsg (Msg.render ⟨some "Foo".toList, "s".toList, .gotFirst, "'a;b'".toList,
+      "Expected a maximum length of 2".toList⟩) =
+      ⟨some "Foo.s".toList, none, "Got 'a;b'; Expected a maximum length of 2".toList, false⟩ := by
+  decide
+
+/-- finding `field-lost:non-ascii-name`: a field called `é` -/
+theorem non_ascii_name_loses_field :
+    (parseMsg (Msg.render ⟨some "Foo".toList, "é".toList, .gotLast, "'x'".toList,
+      "Expected <class 'int'>".toList⟩)).field = none := by decide
+
+/-- finding `no-path:*`: foreign exception texts (`Positive` given a str, `Boolean` given a list)
+    carry no path; with the class prefix of `Structure.__init__` nothing is recognised -/
+theorem anon_message_no_field :
+    (parseMsg "Foo.unhashable type: 'list'".toList).field = none ∧
+    (parseMsg "Foo.'<=' not supported between instances of 'str' and 'int'".toList).field = none := by
+  decide
+
+/-- finding `field-lost:deser-json-under-failfast`: the JSON list that `construct_fields_map`
+    raises for a falsy input even in fail-fast mode is not decoded by the helper -/
+theorem json_list_text_no_field :
+    (parseMsg "[\"Foo.i: Got 0; Expected a minimum of 3\"]".toList).field = none := by decide
+
+/-- findings `no-path:enum-invalid-value:deser`, `no-path:unnamed-inner-field:deser-collection`,
+    `no-path:unhashable:deser-set` (and the former `no-path:index-error:deser-positional`): texts
+    that deserialization raises without any path — bare, and with the class prefix that
+    `raise_errs_if_needed` adds — give no field (or, for an unnamed Enum item, the field `None`) -/
+theorem deser_foreign_texts_no_field :
+    (parseMsg "Invalid value: 'PINK'".toList).field = none ∧
+    (parseMsg "Foo.Invalid value: 'PINK'".toList).field = none ∧
+    (parseMsg "Expected <class 'int'>; Got 'x'".toList).field = none ∧
+    (parseMsg "Foo.Expected <class 'int'>; Got 'x'".toList).field = none ∧
+    (parseMsg "list index out of range".toList).field = none ∧
+    (parseMsg "None: Got 5; Expected one of 1, 2".toList).field = some "None".toList := by
+  decide
+
+/-- `Expected <class 'int'>` becomes readable; a class without display name is formatted from the
+    match object (flag set) — a defect of `_transform_class_to_readable`, not of the property -/
+theorem transform_examples :
+    transform "Expected <class 'int'>".toList = ("Expected an integer number".toList, false) ∧
+    (transform "Expected <class 'bool'>".toList).2 = true ∧
+    transform "Expected a string".toList = ("Expected a string".toList, false) := by decide
+
+/-! ### the helper never raises on typedpy rejections -/
+
+/-- the only way `standard_readable_error_for_typedpy_exception` raises: collect-all mode and
+    `str(e)` is valid JSON that is not an iterable of strings -/
+theorem readable_raises_iff (ff : Bool) (J : Codec) (s : Text) :
+    (∃ e, readable ff J s = .error e) ↔ ff = false ∧ J.loads s = .raises := by
+  unfold readable
+  cases ff with
+  | true => simp
+  | false => cases h : J.loads s <;> simp
+
+theorem readable_total (ff : Bool) (J : Codec) (s : Text) (h : ff = true ∨ J.loads s ≠ .raises) :
+    ∃ out, readable ff J s = .ok out := by
+  cases hr : readable ff J s with
+  | ok out => exact ⟨out, rfl⟩
+  | error e =>
+    have := (readable_raises_iff ff J s).1 ⟨e, hr⟩
+    cases h with
+    | inl h => simp [h] at this
+    | inr h => exact absurd this.2 h
+
+/-- for every exception text the construction model produces — any class, arguments, texts,
+    either mode — the helper returns -/
+theorem readable_total_on_rejections (O : Oracles) (T : Texts) (J : Codec) (hJ : J.RoundTrip)
+    (ff : Bool) (c : ClassOpts) (fields : List (String × FieldDecl)) (kw : List (String × PyVal))
+    (t : Text) (h : (constructRaises O T ff c fields kw).text J = some t) :
+    ∃ out, readable ff J t = .ok out := by
+  cases ff with
+  | true => exact readable_total true J t (Or.inl rfl)
+  | false =>
+    apply readable_total
+    right
+    unfold constructRaises at h
+    split at h
+    · simp [Raised.text] at h
+    · split at h
+      · simp [Raised.text] at h
+      · simp only [Bool.false_eq_true, if_false, Raised.text, Option.some.injEq] at h
+        rw [← h, hJ]; simp
+
+/-- observation (outside the statement's domain): in collect-all mode a message that is a bare
+    JSON scalar makes the helper raise -/
+theorem readable_raises_example (J : Codec) (h : J.loads ['5'] = .raises) :
+    readable false J ['5'] = .error "TypeError" := by
+  simp [readable, h]
+
+/-! ### construction: which fields are reported -/
+
+/-- the message text begins with `<Class>.<top>[suffix]: ` -/
+def BeginsWithPath (cls : Text) (t : Text) (n : String) : Prop :=
+  ∃ (suf : Suffix) (rest : Text), t = withClass (some cls) (n.toList ++ suf.text) ++ ':' :: ' ' :: rest
+
+/-- `ErrorInfo.field` names the top-level field `n` -/
+def InfoNames (cls : Text) (i : Info) (n : String) : Prop :=
+  ∃ p, i.field = some p ∧ namesField (some cls) n p
+
+/-- the site raises a typedpy message (with a path) whose texts satisfy the side condition -/
+def siteGood (T : Texts) (s : Site) : Bool :=
+  !s.loc.anon && goodTexts s.loc.shape (T s).1 (T s).2
+
+/-- weaker: only what is needed for the field (exact condition on the body) -/
+def siteRecoverable (T : Texts) (s : Site) : Bool :=
+  !s.loc.anon && recoverable (body s.loc.shape (T s).1 (T s).2)
+
+theorem goodTexts_recoverable (sh : Shape) (v p : Text) (h : goodTexts sh v p = true) :
+    recoverable (body sh v p) = true := by
+  cases sh with
+  | gotFirst =>
+    simp only [goodTexts, Bool.and_eq_true] at h
+    exact recoverable_gotFirst v p h.1.1 h.1.2
+  | gotLast =>
+    simp only [goodTexts, Bool.and_eq_true] at h
+    exact recoverable_of_noNL _ v p h.1.1.1 h.1.1.2
+  | plain =>
+    simp only [goodTexts, Bool.and_eq_true] at h
+    simp [body, recoverable, dotEnd_noNL p h.1.1.1]
+
+theorem siteGood_recoverable (T : Texts) (s : Site) (h : siteGood T s = true) :
+    siteRecoverable T s = true := by
+  simp only [siteGood, siteRecoverable, Bool.and_eq_true] at *
+  exact ⟨h.1, goodTexts_recoverable _ _ _ h.2⟩
+
+/-- text of a named site with the class prefix = full path, `: `, body -/
+theorem site_text (T : Texts) (cls : Text) (s : Site) (hn : s.loc.anon = false) :
+    withClass (some cls) (s.text T) =
+      withClass (some cls) (s.top.toList ++ s.loc.suffix.text) ++
+        ':' :: ' ' :: body s.loc.shape (T s).1 (T s).2 := by
+  simp [Site.text, hn, withClass]
+
+theorem site_begins (T : Texts) (cls : Text) (s : Site) (hn : s.loc.anon = false) :
+    BeginsWithPath cls (withClass (some cls) (s.text T)) s.top :=
+  ⟨s.loc.suffix, _, site_text T cls s hn⟩
+
+theorem site_field (T : Texts) (cls : Text) (s : Site) (hc : identOk cls = true)
+    (ht : identOk s.top.toList = true) (h : siteRecoverable T s = true) :
+    (parseMsg (withClass (some cls) (s.text T))).field =
+      some (withClass (some cls) (s.top.toList ++ s.loc.suffix.text)) := by
+  simp only [siteRecoverable, Bool.and_eq_true, Bool.not_eq_true'] at h
+  rw [site_text T cls s h.1, render_parse_exact _ _ (identOk_path cls _ _ hc ht)]
+  exact h.2
+
+theorem site_problem (T : Texts) (cls : Text) (s : Site) (hc : identOk cls = true)
+    (ht : identOk s.top.toList = true) (h : siteGood T s = true) :
+    (parseMsg (withClass (some cls) (s.text T))).problem ≠ [] := by
+  simp only [siteGood, Bool.and_eq_true, Bool.not_eq_true'] at h
+  have := render_parse ⟨some cls, s.top.toList ++ s.loc.suffix.text, s.loc.shape, (T s).1, (T s).2⟩
+    (identOk_path cls _ _ hc ht) h.2
+  rw [render_eq] at this
+  rw [site_text T cls s h.1]
+  exact this.2
+
+/-- what the property says about one run of `cls(**kw)` under the global switch `ff`, observed at
+    `str(exception)` and at the helper's result -/
+def Reported (O : Oracles) (T : Texts) (J : Codec) (ff : Bool) (c : ClassOpts)
+    (fields : List (String × FieldDecl)) (kw : List (String × PyVal)) : Prop :=
+  match constructRaises O T ff c fields kw with
+  | .single _ t =>
+    ∃ n, n ∈ invalidFields O c kw fields ∧ BeginsWithPath c.name.toList t n ∧
+      ∃ i, readable ff J t = .ok (.single i) ∧ InfoNames c.name.toList i n ∧ i.problemNonEmpty = true
+  | .collected ts =>
+    Aligned (BeginsWithPath c.name.toList) ts (invalidFields O c kw fields) ∧
+      ∃ infos, readable ff J (J.dumps ts) = .ok (.many infos) ∧
+        Aligned (InfoNames c.name.toList) infos (invalidFields O c kw fields)
+  | _ => True
+
+/-- C18 at full strength, for flat classes: every class, argument set, text, codec, both modes -/
+def Statement : Prop :=
+  ∀ (O : Oracles) (T : Texts) (J : Codec) (ff : Bool) (c : ClassOpts)
+    (fields : List (String × FieldDecl)) (kw : List (String × PyVal)),
+    (ff = false → J.RoundTrip) → fields.all (fun nf => isFlatDecl nf.2) = true →
+    Reported O T J ff c fields kw
+
+/-- collect-all mode: the messages and the reported `ErrorInfo.field`s are, position by position,
+    exactly the supplied fields that `validate` rejects (in signature order) -/
+theorem collect_all_exact (O : Oracles) (T : Texts) (J : Codec) (hJ : J.RoundTrip) (c : ClassOpts)
+    (fields : List (String × FieldDecl)) (kw : List (String × PyVal)) (ts : List Text)
+    (hc : identOk c.name.toList = true) (hn : ∀ nf ∈ fields, identOk nf.1.toList = true)
+    (hs : ∀ s ∈ sites O c kw fields, siteRecoverable T s = true)
+    (h : constructRaises O T false c fields kw = .collected ts) :
+    Aligned (BeginsWithPath c.name.toList) ts (invalidFields O c kw fields) ∧
+      ∃ infos, readable false J (J.dumps ts) = .ok (.many infos) ∧
+        Aligned (InfoNames c.name.toList) infos (invalidFields O c kw fields) := by
+  have hts : ts = (sites O c kw fields).map fun x => withClass (some c.name.toList) (x.text T) := by
+    unfold constructRaises at h
+    split at h
+    · simp at h
+    · split at h
+      · simp at h
+      · rename_i s ss hss
+        simp only [Bool.false_eq_true, if_false, Raised.collected.injEq] at h
+        rw [hss, ← h]
+  have hanon : ∀ s ∈ sites O c kw fields, s.loc.anon = false := by
+    intro s hs'
+    have := hs s hs'
+    simp only [siteRecoverable, Bool.and_eq_true, Bool.not_eq_true'] at this
+    exact this.1
+  refine ⟨?_, ?_⟩
+  · rw [hts, ← sites_tops]
+    exact aligned_map _ _ _ _ fun s hs' => site_begins T _ s (hanon s hs')
+  · refine ⟨_, readable_collected J hJ ts, ?_⟩
+    rw [hts, ← sites_tops, List.map_map]
+    apply aligned_map
+    intro s hs'
+    obtain ⟨nf, hnf, htop⟩ := sites_mem_field O c kw fields s hs'
+    refine ⟨_, ?_, s.loc.suffix, rfl⟩
+    rw [Function.comp_apply, internal_field]
+    exact site_field T _ s hc (htop ▸ hn nf hnf) (hs s hs')
+
+/-- fail-fast mode: the single exception names (in its text and through the helper) one of the
+    supplied fields that `validate` rejects, with a non-empty problem -/
+theorem fail_fast_member (O : Oracles) (T : Texts) (J : Codec) (c : ClassOpts)
+    (fields : List (String × FieldDecl)) (kw : List (String × PyVal)) (e : ErrCls) (t : Text)
+    (hc : identOk c.name.toList = true) (hn : ∀ nf ∈ fields, identOk nf.1.toList = true)
+    (hs : ∀ s ∈ sites O c kw fields, siteGood T s = true)
+    (h : constructRaises O T true c fields kw = .single e t) :
+    ∃ n, n ∈ invalidFields O c kw fields ∧ BeginsWithPath c.name.toList t n ∧
+      ∃ i, readable true J t = .ok (.single i) ∧ InfoNames c.name.toList i n ∧
+        i.problemNonEmpty = true := by
+  unfold constructRaises at h
+  split at h
+  · simp at h
+  · split at h
+    · simp at h
+    · rename_i s ss hss
+      simp only [if_true, Raised.single.injEq] at h
+      have hmem : s ∈ sites O c kw fields := by rw [hss]; exact List.mem_cons_self
+      have hg := hs s hmem
+      have hanon : s.loc.anon = false := by
+        simp only [siteGood, Bool.and_eq_true, Bool.not_eq_true'] at hg; exact hg.1
+      obtain ⟨nf, hnf, htop⟩ := sites_mem_field O c kw fields s hmem
+      have htopOk : identOk s.top.toList = true := htop ▸ hn nf hnf
+      refine ⟨s.top, ?_, ?_, ?_⟩
+      · rw [← sites_tops, hss]; simp
+      · rw [← h.2]; exact site_begins T _ s hanon
+      · refine ⟨_, rfl, ⟨_, ?_, s.loc.suffix, rfl⟩, ?_⟩
+        · rw [internal_field, ← h.2]
+          exact site_field T _ s hc htopOk (siteGood_recoverable T s hg)
+        · rw [internal_failFast, ← h.2]
+          have := site_problem T _ s hc htopOk hg
+          simp only [Info.problemNonEmpty, Bool.not_eq_true', List.isEmpty_eq_false_iff]
+          exact this
+
+/-- C18 restricted to the region outside the known findings: ASCII class / field names, every
+    rejection raised by a typedpy check with a path (`anon = false`), texts satisfying the
+    per-shape side condition `goodTexts` -/
+theorem statement_partial (O : Oracles) (T : Texts) (J : Codec) (ff : Bool) (c : ClassOpts)
+    (fields : List (String × FieldDecl)) (kw : List (String × PyVal))
+    (hJ : ff = false → J.RoundTrip)
+    (hc : identOk c.name.toList = true) (hn : ∀ nf ∈ fields, identOk nf.1.toList = true)
+    (hs : ∀ s ∈ sites O c kw fields, siteGood T s = true) :
+    Reported O T J ff c fields kw := by
+  unfold Reported
+  split
+  · rename_i e t h
+    cases ff with
+    | true => exact fail_fast_member O T J c fields kw e t hc hn hs h
+    | false =>
+      exfalso
+      unfold constructRaises at h
+      split at h
+      · simp at h
+      · split at h <;> simp at h
+  · rename_i ts h
+    cases ff with
+    | false =>
+      exact collect_all_exact O T J (hJ rfl) c fields kw ts hc hn
+        (fun s hs' => siteGood_recoverable T s (hs s hs')) h
+    | true =>
+      exfalso
+      unfold constructRaises at h
+      split at h
+      · simp at h
+      · split at h <;> simp at h
+  · trivial
+
+/-! ### the full statement is false of the pinned code (and of the model that mirrors it) -/
+
+def exClass : ClassOpts := { name := "Foo", required := [] }
+def exFields : List (String × FieldDecl) := [("i", .integer {}), ("s", .string none (some 2) none)]
+def exKw : List (String × PyVal) := [("i", .str "a\nb"), ("s", .str "abc")]
+def exOracles : Oracles := ⟨fun _ _ => false⟩
+def exTexts : Texts := fun s =>
+  if s.top == "i" then ("'a\nb'".toList, "Expected <class 'int'>".toList)
+  else ("'abc'".toList, "Expected a maximum length of 2".toList)
+def exCodec : Codec := ⟨fun _ => [], fun _ => .invalid⟩
+
+theorem ex_raises :
+    constructRaises exOracles exTexts true exClass exFields exKw =
+      .single .typeErr "Foo.i: Expected <class 'int'>; Got 'a\nb'".toList := by decide
+
+theorem statement_false : ¬ Statement := by
+  intro h
+  have := h exOracles exTexts exCodec true exClass exFields exKw (by simp) (by decide)
+  unfold Reported at this
+  rw [ex_raises] at this
+  obtain ⟨n, _, _, i, hi, ⟨p, hp, _⟩, _⟩ := this
+  simp only [readable, if_true, Except.ok.injEq, Out.single.injEq] at hi
+  rw [← hi, internal_field] at hp
+  have : (parseMsg "Foo.i: Expected <class 'int'>; Got 'a\nb'".toList).field = none := by decide
+  rw [this] at hp
+  simp at hp
+
+/-- non-vacuity: a two-field class with both arguments invalid; fail-fast reports the first in
+    signature order, collect-all both, and the helper's fields are the two full paths -/
+def ex2Kw : List (String × PyVal) := [("s", .str "abc"), ("i", .str "x")]
+def ex2Texts : Texts := fun s =>
+  if s.top == "i" then ("'x'".toList, "Expected <class 'int'>".toList)
+  else ("'abc'".toList, "Expected a maximum length of 2".toList)
+
+theorem construct_example :
+    invalidFields exOracles exClass ex2Kw exFields = ["i", "s"] ∧
+    constructRaises exOracles ex2Texts true exClass exFields ex2Kw =
+      .single .typeErr "Foo.i: Expected <class 'int'>; Got 'x'".toList ∧
+    constructRaises exOracles ex2Texts false exClass exFields ex2Kw =
+      .collected ["Foo.i: Expected <class 'int'>; Got 'x'".toList,
+                  "Foo.s: Got 'abc'; Expected a maximum length of 2".toList] ∧
+    (sites exOracles exClass ex2Kw exFields).all (siteGood ex2Texts) = true ∧
+    parseMsg "Foo.i: Expected <class 'int'>; Got 'x'".toList =
+      ⟨some "Foo.i".toList, some "'x'".toList, "Expected an integer number".toList, false⟩ ∧
+    parseMsg "Foo.s: Got 'abc'; Expected a maximum length of 2".toList =
+      ⟨some "Foo.s".toList, some "'abc'".toList, "Expected a maximum length of 2".toList, false⟩ := by
+  decide
+
 end Typedpy.C18
